@@ -21,7 +21,7 @@ XHDIR = os.path.join(VERIF, 'harness', 'xh')
 CROSSHAIR = os.path.join(VERIF, '.venv', 'bin', 'crosshair')
 
 CALL = re.compile(r'when calling (\w+)\((.*)\)\s*$')
-RETURNS = re.compile(r' \(which returns .*\)\s*$')
+RETURNS = re.compile(r'( \(which returns .*\))?( with crosshair\.patch_to_return\(.*\))?\s*$')
 
 
 def _function_line(path, name):
